@@ -11,13 +11,15 @@ META = {
     'evaluations': 'states_checked',
     'rule': 'histories of trait / resource-class create, rename (1.2-1.6), '
             'delete with "restarts" (start-up synchronisation re-run) '
-            'interleaved, from empty, partially synchronised (random unused '
+            'interleaved (also: a start-up failing on an injected database '
+            'error followed by a start-up in the same process), from empty, '
+            'partially synchronised (random unused '
             'standard rows removed by raw SQL) and full databases, names '
             'from a boundary set (254/255/256 chars, lower case, trailing '
             'newline, unicode look-alikes, standard names); one evaluation = '
             'one post-request check of the traits / resource_classes tables; '
             'distinct = (operation, name class, status, sync phase)',
-    'floors': {'concurrent_schedules': 50, 'restarts': 10, 'partial_resyncs': 3, 'standard_refusals': 5,
+    'floors': {'concurrent_schedules': 50, 'restarts': 10, 'partial_resyncs': 3, 'failed_startups': 3, 'standard_refusals': 5,
                'creates_existing': 5, 'custom_classes_created': 5},
     'assumptions': ['SQLite backend', 'sequential histories + transaction-'
                     'level interleavings of racing creations/deletions',
@@ -167,7 +169,10 @@ def run_shard(spec, res):
     import os_traits
     std_traits = list(os_traits.get_traits())
     std_classes = list(orc.STANDARDS)
+    from pv import faults
+    from pv.sqlwatch import SqlWatch
     svc = histrun.Service()
+    watch = SqlWatch(svc.app.engine)
     c = svc.client
     try:
         for i in range(spec['first'], spec['first'] + spec['count']):
@@ -212,7 +217,7 @@ def run_shard(spec, res):
                 op = rng.choice(['put_trait', 'put_trait', 'delete_trait',
                                  'post_rc', 'post_rc', 'put_rc7', 'put_rc2',
                                  'delete_rc', 'delete_rc', 'assoc', 'inv',
-                                 'restart', 'partial'])
+                                 'restart', 'partial', 'failed-start'])
                 what = op
                 wit = None
                 if op == 'restart':
@@ -228,6 +233,45 @@ def run_shard(spec, res):
                     check_state(after, None, res, std_traits, std_classes,
                                 'restart', {'history': c.history(20)})
                     res.seen('restart', 'mid-history')
+                    continue
+                if op == 'failed-start':
+                    # a start-up that fails on a database error, then the
+                    # application is loaded again in the same process
+                    used_t = {t for (_, t) in before.rp_traits}
+                    used_c = {k for (_, k) in before.inventories}
+                    con = sqlite3.connect(svc.app.db_path)
+                    for n in rng.sample(std_traits, 8):
+                        if n not in used_t:
+                            con.execute('DELETE FROM traits WHERE name=?',
+                                        (n,))
+                    for n in rng.sample(std_classes, 3):
+                        if n not in used_c:
+                            con.execute('DELETE FROM resource_classes '
+                                        'WHERE name=?', (n,))
+                    con.commit()
+                    con.close()
+                    inj = faults.Injector(rng.randrange(0, 14), 'ERR', watch)
+                    watch.start(inj)
+                    try:
+                        svc.app.restart()
+                        failed = False
+                    except Exception:
+                        failed = True
+                    finally:
+                        watch.stop()
+                    res.count('restarts')
+                    if failed:
+                        res.count('failed_startups')
+                        svc.app.restart(new_process=False)
+                        res.count('restarts')
+                    after = svc.dump()
+                    check_state(after, None, res, std_traits, std_classes,
+                                'start-up after a failed start-up in the '
+                                'same process' if failed else 'partial resync',
+                                {'history': c.history(20),
+                                 'fault_at_event': inj.k})
+                    res.seen('restart', 'after-failed-start' if failed
+                             else 'partial')
                     continue
                 if op == 'partial':
                     used_t = {t for (_, t) in before.rp_traits}
